@@ -346,6 +346,9 @@ class ExprMixin:
                 for s2, nz in self.branch(st, br != 0, 'divzero'):
                     outs.append((s2, VReal(ar / br)) if nz else self.exc(s2, 'ZeroDivisionError', node))
                 return outs
+            if isinstance(op, ast.Pow) and isinstance(a, VInt) and isinstance(b, VInt) and z3.is_int_value(a.t) and z3.is_int_value(b.t) \
+                    and 0 <= b.t.as_long() <= 64:
+                return [(st, lift(a.t.as_long() ** b.t.as_long()))]
             if isinstance(op, ast.Pow) and z3.is_int_value(b.t) and 0 <= b.t.as_long() <= 4 and isinstance(a, (VInt, VReal)):
                 r = lift(1)
                 for _ in range(b.t.as_long()):
@@ -464,6 +467,8 @@ class ExprMixin:
             return v.t
         if isinstance(v, VNoneT):
             return z3.Const('None@obj', Obj)
+        if isinstance(v, VU):
+            return z3.Function('inj:' + v.t.sort().name(), v.t.sort(), Obj)(v.t)
         if isinstance(v, (VInt, VBool)):
             t = v.t if isinstance(v, VInt) else z3.If(v.t, 1, 0)
             return z3.Function('inj:int', z3.IntSort(), Obj)(t)
@@ -514,6 +519,9 @@ class ExprMixin:
         if isinstance(v, VExc):
             return [(st, VOpaque(hint=attr))]
         if isinstance(v, (VStr, VList, VTuple, VSeq, VInt, VReal, VFunc)):
+            return [(st, VFunc(f"<method {attr}>", self_obj=v, model=None, key=('builtin_method', attr)))]
+        if isinstance(v, V) and 'method' in self.hooks:
+            # contract-defined ghost collections: their methods are interpreted by the 'method' hook
             return [(st, VFunc(f"<method {attr}>", self_obj=v, model=None, key=('builtin_method', attr)))]
         raise Refuse(f"attribute {attr} of {v!r}")
 
